@@ -28,6 +28,7 @@ B13 = os.path.join(C.BUILD, 'c13')
 KERNELRUN = os.path.join(B13, 'kernelrun')
 
 THEOREMS = M.THEOREMS
+PROPS_FILES = M.PROPS_FILES
 RULE = ('for each of the 690 specializations: seeded role-aware arguments (offsets monotone, parents sorted, starts/stops '
         'consistent, indexes in range, masks 0/1, lengths consistent; zero lengths; per-width extremes and offsets next '
         'to the top of unsigned types for pure-arithmetic kernels) in three streams: common (values representable in '
